@@ -149,10 +149,9 @@ func (c *Collection) DeleteSubDocPaths(
 			key: key,
 			cas: newCas,
 		}
-		var revSeqNo uint64
-		row := txn.QueryRow(`SELECT value, xattrs, revSeqNo FROM documents WHERE collection=?1 AND key=?2`, c.id, key)
+		row := txn.QueryRow(`SELECT value, isJSON, exp, xattrs, revSeqNo FROM documents WHERE collection=?1 AND key=?2`, c.id, key)
 		var rawXattrs []byte
-		err := scan(row, &e.value, &rawXattrs, &revSeqNo)
+		err := scan(row, &e.value, &e.isJSON, &e.exp, &rawXattrs, &e.revSeqNo)
 		if err != nil {
 			return nil, remapKeyError(err, key)
 		}
@@ -160,7 +159,9 @@ func (c *Collection) DeleteSubDocPaths(
 			return nil, err
 		}
 		e.xattrs = rawXattrs
-		_, err = txn.Exec(`UPDATE documents SET xattrs=?1, cas=?2, revSeqNo=?3 WHERE collection=?4 AND key=?5`, rawXattrs, newCas, revSeqNo, c.id, key)
+		e.isDeletion = e.value == nil
+		e.revSeqNo++
+		_, err = txn.Exec(`UPDATE documents SET xattrs=?1, cas=?2, revSeqNo=?3 WHERE collection=?4 AND key=?5`, rawXattrs, newCas, e.revSeqNo, c.id, key)
 		return e, err
 	})
 	traceExit("DeleteXattrs", err, "ok")
